@@ -8,6 +8,7 @@ use crate::engine::*;
 use crate::model::*;
 use crate::props::util::*;
 use crate::refsem::*;
+use crate::space::mentions;
 use crate::subject::*;
 use serde_json::json;
 use std::time::Instant;
@@ -137,7 +138,7 @@ fn configs(tier: Tier) -> Vec<Config> {
     v
 }
 
-const VARIANTS: [&str; 4] = ["depth 0", "loop depth 1", "loop depth 2", "repeat row"];
+const VARIANTS: [&str; 6] = ["depth 0", "loop depth 1", "loop depth 2", "repeat row", "variables named C X Z c x z", "loop counter named X"];
 
 fn wrap(variant: usize, row: Vec<Entry>, last: &[Entry]) -> Vec<Stmt> {
     let tail = Stmt::Row(last.to_vec());
@@ -145,7 +146,16 @@ fn wrap(variant: usize, row: Vec<Entry>, last: &[Entry]) -> Vec<Stmt> {
         0 => vec![Stmt::Let("k".into(), lit(1)), Stmt::Row(row), tail],
         1 => vec![Stmt::Loop("k".into(), lit(2), vec![Stmt::Row(row)]), tail],
         2 => vec![Stmt::Loop("j".into(), lit(2), vec![Stmt::Loop("k".into(), lit(2), vec![Stmt::Row(row), tail.clone()])]), tail],
-        _ => vec![Stmt::Let("k".into(), lit(1)), Stmt::Repeat(lit(2), row), tail],
+        3 => vec![Stmt::Let("k".into(), lit(1)), Stmt::Repeat(lit(2), row), tail],
+        // variables whose names are spelt like the C / X / Z entries: an entry stays an entry
+        4 => {
+            let mut b: Vec<Stmt> = ["C", "X", "Z", "c", "x", "z"].iter().enumerate().map(|(j, n)| Stmt::Let(n.to_string(), lit(j as i64 % 2))).collect();
+            b.push(Stmt::Let("k".into(), bin(BinOp::Add, name("C"), lit(1))));
+            b.push(Stmt::Row(row));
+            b.push(tail);
+            b
+        }
+        _ => vec![Stmt::Loop("X".into(), lit(2), vec![Stmt::Let("k".into(), name("X")), Stmt::Row(row)]), tail],
     }
 }
 
@@ -192,11 +202,11 @@ pub fn run(tier: Tier, seed: u64) -> i32 {
         }
         for (bp, rad) in &families {
             let n = product(rad) * VARIANTS.len() as u64;
-            let label = format!("config {} / {} / x4 program forms", cfg.name, match bp { None => "plain entries".to_string(), Some(c) => format!("bits(2,k) over columns {c},{}", c + 1) });
+            let label = format!("config {} / {} / x6 program forms", cfg.name, match bp { None => "plain entries".to_string(), Some(c) => format!("bits(2,k) over columns {c},{}", c + 1) });
             let script = vec![Step::Ans(cfg.answer.clone())];
             let st = par_range(&label, n, &deadline, |idx, st| {
-                let variant = (idx % 4) as usize;
-                let d = digits(idx / 4, rad);
+                let variant = (idx % VARIANTS.len() as u64) as usize;
+                let d = digits(idx / VARIANTS.len() as u64, rad);
                 let mut row: Vec<Entry> = vec![];
                 let mut di = 0;
                 for c in 0..cfg.menus.len() {
@@ -281,10 +291,12 @@ pub fn run(tier: Tier, seed: u64) -> i32 {
         let sigs = vec![Sig::inp("C1", 1, 0), Sig::out("R", 4), Sig::inp("C2", 1, 0), Sig::inp("A", 1, 0), Sig::inp("W", 4, 3), Sig::out("Q", 4)];
         let header: Vec<String> = ["C1", "C2", "A", "W", "Q", "R"].iter().map(|s| s.to_string()).collect();
         let one = vec![l(0), l(1), Entry::X, Entry::C];
-        let menus2: Vec<Vec<Entry>> = vec![one.clone(), one.clone(), one.clone(), vec![l(5), Entry::C, Entry::Paren(k())], vec![Entry::X, l(2)], vec![Entry::X, Entry::Paren(k())]];
+        // (Q): a value read from the device, which answers differently at every call: a source row is
+        // evaluated once, when it is reached, for all the device writes it expands into
+        let menus2: Vec<Vec<Entry>> = vec![one.clone(), one.clone(), one.clone(), vec![l(5), Entry::C, Entry::Paren(k()), Entry::Paren(name("Q"))], vec![Entry::X, l(2)], vec![Entry::X, Entry::Paren(k())]];
         // sequences of three rows: smaller menus for the wide input and the expected columns
         let menus3: Vec<Vec<Entry>> = vec![one.clone(), one.clone(), one.clone(), vec![l(5), Entry::C], vec![l(2)], vec![Entry::X]];
-        let script = vec![Step::Ans(vec![("R".into(), V::Num(9)), ("Q".into(), V::Num(5))])];
+        let script: Vec<Step> = (0..400).map(|j| Step::Ans(vec![("R".into(), V::Num(9)), ("Q".into(), V::Num((j * 3 + 5) % 16))])).collect();
         let last = vec![l(1), l(0), l(1), l(2), l(7), l(9)];
         for nrows in 2..=tier.pick(2, 3) {
             if nrows == 3 && deadline.expired() {
@@ -326,6 +338,9 @@ pub fn run(tier: Tier, seed: u64) -> i32 {
                     st.nontrivial += 1;
                 }
                 st.witness("history_of_rows");
+                if r.events.contains("x_expansion") && mentions(&prog.body, "Q") {
+                    st.witness("row_reading_the_device_while_it_is_expanded");
+                }
                 let mut opts = RunOpts::new(r.items.len() + 1);
                 opts.after_end = 1;
                 opts.repeat_last = true;
@@ -341,13 +356,78 @@ pub fn run(tier: Tier, seed: u64) -> i32 {
             total.merge(st);
         }
     }
+    // histories with one driver fault: the call that fails may be any of the writes (also the first
+    // or second of a clock triple); the caller carries on; every other write still happens as prescribed
+    {
+        let sigs = vec![Sig::inp("C1", 1, 0), Sig::inp("C2", 1, 0), Sig::inp("A", 1, 0), Sig::out("Q", 4)];
+        let header: Vec<String> = ["C1", "C2", "A", "Q"].iter().map(|s| s.to_string()).collect();
+        let menus: Vec<Vec<Entry>> = vec![vec![l(0), Entry::C, Entry::X], vec![l(0), Entry::C], vec![l(1), Entry::X], vec![Entry::X, l(2)]];
+        let rad: Vec<u64> = menus.iter().map(|m| m.len() as u64).collect();
+        let per_row = product(&rad);
+        let ok = Step::Ans(vec![("Q".into(), V::Num(5))]);
+        let st = par_range("histories of 2 rows x one driver fault at call 1..10 x 2 program forms, caller carries on", per_row * per_row * 2 * 10, &deadline, |idx, st| {
+            let fault_at = (idx % 10) as usize + 1;
+            let form = (idx / 10) % 2;
+            let mut rest = idx / 20;
+            let mut rows = vec![];
+            for _ in 0..2 {
+                let d = digits(rest % per_row, &rad);
+                rest /= per_row;
+                rows.push(Stmt::Row(d.iter().enumerate().map(|(c, &i)| menus[c][i].clone()).collect()));
+            }
+            let body = if form == 0 { rows } else { vec![Stmt::Loop("k".into(), lit(2), rows)] };
+            let prog = Program { header: header.clone(), body };
+            let text = text(&prog);
+            let mut script: Vec<Step> = vec![ok.clone(); fault_at];
+            script.push(Step::Fault(55));
+            script.push(ok.clone());
+            let mut env = ScriptEnv::new(&script);
+            env.repeat_last = true;
+            let r = crate::refsem::run_opts2(&prog, &sigs, &mut env, Fuel { steps: 20_000, rows: 400 }, true, false);
+            st.evals += 1;
+            if !r.items.iter().any(|i| matches!(i, RefItem::DriverErr(_))) {
+                return;
+            }
+            st.nontrivial += 1;
+            st.witness("history_with_a_driver_fault_then_carried_on");
+            let mut opts = RunOpts::new(r.items.len() + 1);
+            opts.after_end = 1;
+            opts.repeat_last = true;
+            opts.continue_after_error = true;
+            let obs = run_dynamic(&text, &sigs, true, &script, &opts);
+            st.steps += obs.items.len() as u64;
+            let proj = Proj { input_values: true, expected: true, output: false, checked_kind: true, lines: false, vars: false, verdicts: false };
+            let mut mism = run_mismatch(&r, &obs, proj, None).map(|x| x.1);
+            if mism.is_none() {
+                // the writes the device saw: one call per item, kinds W W RW per clock triple
+                for (kk, it) in r.items.iter().enumerate() {
+                    let checked = match it {
+                        RefItem::Row(rr) => rr.checked,
+                        _ => continue,
+                    };
+                    match obs.log.get(kk + 1) {
+                        Some(c) if c.rw == checked => {}
+                        _ => {
+                            mism = Some(format!("item {kk}: call kind: expected {} call", if checked { "an output-reading" } else { "a write-only" }));
+                            break;
+                        }
+                    }
+                }
+            }
+            if let Some(m) = mism {
+                let class = format!("history with a fault: {}", classify(&m));
+                st.violation(&class, idx, format!("program:\n{text}the driver fails at call {fault_at} (once), the caller carries on\nfirst difference at {m}"), || dyn_replay(&text, &sigs, true, &script, &opts, ref_items_brief(&r), &obs, &m));
+            }
+        });
+        total.merge(st);
+    }
     let meta = CheckMeta {
         id: "C05",
         tier,
         seed,
         rule: "every combination of per-column entries {0,1,X,C,Z,(k)} / {5,X,C,(k+1),Z} / expected {X,Z,2,(k)} (and bits(2,k) over adjacent columns), in each of 4 program forms, for each configuration; mixed-radix index decoded injectively; plus every ordered sequence of 2 (thorough: 3) rows over a reduced menu with two clock columns; a case is non-trivial if a row holds X or C in an input column".into(),
         assumptions: vec!["reference expansion in refsem.rs::do_row is the oracle".into(), "loop bounds are >= 1 here (bounds <= 0 are C01's)".into()],
-        required_witnesses: vec!["ten_x_inputs_and_a_clock", "x_expansion", "c_expansion", "x_and_c_composed", "bits_row", "depth 0", "loop depth 1", "loop depth 2", "repeat row", "history_of_rows"],
+        required_witnesses: vec!["ten_x_inputs_and_a_clock", "x_expansion", "c_expansion", "x_and_c_composed", "bits_row", "depth 0", "loop depth 1", "loop depth 2", "repeat row", "variables named C X Z c x z", "loop counter named X", "history_of_rows", "history_with_a_driver_fault_then_carried_on", "row_reading_the_device_while_it_is_expanded"],
         exhaustive_note: "all row shapes over the stated menus for every configuration and program form".into(),
         e1: false,
     };
